@@ -76,7 +76,16 @@ func (s *Stream) Recv(msg any) error {
 			return Errorf("Message is too big. Max allowed size is %d bytes", s.max)
 		}
 		if read >= need {
-			return UnmarshalTTLV(buf[:need], msg)
+			// The message has been received completely: whatever goes wrong now is a
+			// decoding problem, not a transport one. Report it as such, so that the
+			// receiver can tell them apart (and answer with an "invalid message" error).
+			if err := UnmarshalTTLV(buf[:need], msg); err != nil {
+				if !IsErrEncoding(err) {
+					return ErrEncoding{cause: err}
+				}
+				return err
+			}
+			return nil
 		}
 		if err != nil {
 			return err
